@@ -239,6 +239,56 @@ fn inverses(d: &mut Drv) {
     d.call("inv", || arg("c/trs"), || em(&hc.inverted()));
 }
 
+/// The general 4x4 inverse on 16 free symbols: every entry the code returns is a fraction of polynomials; they are
+/// brought to the form N / D (one common denominator D, as the code produces it) and logged as the polynomial matrix N
+/// and the polynomial D.  TLC checks the rational-function identity A*N = N*A = D*I with D # 0, i.e. N/D is the
+/// two-sided inverse of A wherever it exists - for every matrix at once.  The rigid fast inverse involves no division
+/// and is compared with the specification's formula on a symbolic [R|t; 0 0 0 1].
+fn inverses_sym(d: &mut Drv) {
+    type R = rm::Mat4<Sym>;
+    type C = cm::Mat4<Sym>;
+    let split = |m: Vec<Vec<Sym>>| -> Value {
+        let den = m[0][0].den();
+        let mut num = vec![];
+        for row in m.iter() { let mut r = vec![]; for e in row.iter() {
+            // e = n/d; with a common denominator D: numerator n * (D/d), only the case d == D or d == 1 occurs
+            if e.den() == den { r.push(e.num()); } else if e.is_poly() { r.push(*e * den); } else { crate::q::inconclusive("no common denominator") }
+        } num.push(r); }
+        json!({"num": evm(&num), "den": ev(den)})
+    };
+    crate::sym::reset();
+    let a: Vec<Vec<Sym>> = d.matn(4);
+    let (ar, ac) = (R::from_rows(&a), C::from_rows(&a));
+    let arg = |lay: &str| json!({"a": evm(&a), "lane": "sym", "lay": lay});
+    d.call("inv_sym", || arg("r"), || split(ar.inverted().rows()));
+    d.call("inv_sym", || arg("c"), || split(ac.inverted().rows()));
+    d.call("inv_sym", || arg("r="), || { let mut m = ar; m.invert(); split(m.rows()) });
+    d.call("inv_sym", || arg("c="), || { let mut m = ac; m.invert(); split(m.rows()) });
+    // sparse symbolic matrices (zeros in fixed places change which products vanish, not the identity)
+    for pat in 0..3 {
+        crate::sym::reset();
+        let z = Sym::int(0);
+        let b: Vec<Vec<Sym>> = (0..4).map(|i| (0..4).map(|j| match pat {
+            0 => if i == 3 { Sym::int((j == 3) as i64) } else { Sym::fresh("x") },            // affine
+            1 => if i > j { z } else { Sym::fresh("x") },                                       // upper triangular
+            _ => if (i + j) % 2 == 1 { z } else { Sym::fresh("x") },                            // checkerboard
+        }).collect()).collect();
+        let (br, bc) = (R::from_rows(&b), C::from_rows(&b));
+        let arg = |lay: &str| json!({"a": evm(&b), "lane": "sym", "lay": lay});
+        d.call("inv_sym", || arg("r"), || split(br.inverted().rows()));
+        d.call("inv_sym", || arg("c"), || split(bc.inverted().rows()));
+    }
+    crate::sym::reset();
+    let mut g: Vec<Vec<Sym>> = d.matn(4);
+    for j in 0..4 { g[3][j] = Sym::int((j == 3) as i64); }
+    let (gr, gc) = (R::from_rows(&g), C::from_rows(&g));
+    let arg = |lay: &str| json!({"a": evm(&g), "lane": "sym", "lay": lay});
+    d.call("inv_rigid_sym", || arg("r"), || em(&gr.inverted_affine_transform_no_scale()));
+    d.call("inv_rigid_sym", || arg("c"), || em(&gc.inverted_affine_transform_no_scale()));
+    d.call("inv_rigid_sym", || arg("r="), || { let mut m = gr; m.invert_affine_transform_no_scale(); em(&m) });
+    d.call("inv_rigid_sym", || arg("c="), || { let mut m = gc; m.invert_affine_transform_no_scale(); em(&m) });
+}
+
 pub fn drive_detinv(args: &[String]) {
     let n: usize = arg_or(args, "--n", "30").parse().unwrap();
     let seed: u64 = arg_or(args, "--seed", "1").parse().unwrap();
@@ -246,6 +296,12 @@ pub fn drive_detinv(args: &[String]) {
     let mut d = Drv::new(&arg(args, "--out").expect("--out"), seed);
     for _ in 0..n {
         match lane.as_str() {
+            "sym" => {
+                crate::sym::reset(); dets!(&mut d, Sym, Mat2, 2);
+                crate::sym::reset(); dets!(&mut d, Sym, Mat3, 3);
+                crate::sym::reset(); dets!(&mut d, Sym, Mat4, 4);
+                inverses_sym(&mut d);
+            }
             "q" => {
                 dets!(&mut d, Q, Mat2, 2); dets!(&mut d, Q, Mat3, 3); dets!(&mut d, Q, Mat4, 4);
                 inverses(&mut d);
